@@ -3,6 +3,7 @@ TEXTFLAGS = ("Gen/TextFlags", "TextFlags")
 TEXTFLAGH = ("Oracle/TextFlagH", "TextFlagH")
 REGS = ("Gen/Regs", "Regs")
 REGHW = ("Oracle/RegHW", "RegHW")   # C20: measured (go tool asm + decoders + execution on the host CPU)
+REGVARS = ("Gen/RegVars", "RegVars")  # C20: exported register variables of package reg (go/types enumeration + generated observer)
 
 # C06 / C08: x86/zoptab.go (16 shards + meta + appender), zctors.go + zinstructions.go (8 shards + appender), zmov.go
 FORM_SHARDS = 16
@@ -18,6 +19,8 @@ MOV = ("Gen/Mov", "Mov")
 TAGCHARS = ("Oracle/TagChars", "TagChars")
 # C13: constant types of operand/zconst.go + const.go (format verbs, Bytes)
 CONSTS = ("Gen/Consts", "Consts")
+# C05: the text of the integer constant types, tabulated by running the real Asm() methods
+C05CONSTSAMPLES = ("Gen/C05ConstSamples", "C05ConstSamples")
 MAPRANGES = ("Gen/MapRanges", "MapRanges")
 PASSFACTS = ("Gen/PassFacts", "PassFacts")
 # C15: measured (go build + execution through an assembly trampoline): does the assembler save/restore BP
@@ -31,4 +34,4 @@ def formactions_modules():
             [(f"Gen/FormActions_{i:02d}", f"FormActions_{i:02d}") for i in range(FORMACTION_SHARDS)] +
             [("Gen/FormActions", "FormActions")])
 
-ALL_MODULES = [BRANCHOPS, PASSFACTS, MAPRANGES, TEXTFLAGS, TEXTFLAGH, REGS, REGHW] + forms_modules() + ctors_modules() + [MOV, TAGCHARS, CONSTS, ASMBP] + formactions_modules()
+ALL_MODULES = [BRANCHOPS, PASSFACTS, MAPRANGES, TEXTFLAGS, TEXTFLAGH, REGS, REGHW, REGVARS] + forms_modules() + ctors_modules() + [MOV, TAGCHARS, CONSTS, C05CONSTSAMPLES, ASMBP] + formactions_modules()
